@@ -131,7 +131,8 @@ def gen_cfg(rnd, explainer, exact, allow_discontinuous=False):
         "out_type": "plain" if exact else rnd.choice(["plain", "plain", "np64", "int", "np0d"]),   # NumPy scalars as model outputs / loss values
         "label_keys": rnd.choice(["int", "int", "str"]),                                     # keys of multi-label outputs
         "x_type": rnd.choice(["dict", "dict", "OrderedDict", "subclass"]),                   # observations as dict subclasses
-        "memo_model": rnd.random() < 0.25,                                                   # model hands out cached dict objects
+        "memo_model": rnd.random() < 0.25,
+        "manual_updates": rnd.random() < 0.2,        # the user also feeds the storage through update_storage() between explanations                                                   # model hands out cached dict objects
     }
     # a 0-1 loss returning Python bools is discontinuous: usable where no float reference is compared (C01's self-consistency
     # identity) and in exact dynamic mode (bool/int arithmetic stays exact under exponential smoothing with a rational alpha)
@@ -241,6 +242,12 @@ class Scenario:
     def step(self, x=None, y=None, **kw):
         if x is None:
             x, y = self.next_obs()
+        if self.cfg.get("manual_updates") and self.storage is not None and self.rnd.random() < 0.25:
+            xm, ym = self.stream.next()
+            if self.rnd.random() < 0.5:
+                self.e.update_storage(xm, ym)
+            else:
+                self.e.update_storage(x_i=xm, y_i=ym)
         self.clock.reset()
         if self.cfg.get("keyword_call"):
             ret = self.e.explain_one(x_i=x, y_i=y, **kw)
